@@ -1384,9 +1384,16 @@ def assemble(template_path, repo, cfgset=("debug_assertions",), variant="main", 
     i = 0
     blocks = 0
     linemap = []   # (first_line, last_line, where) in assembled text
+    expect_fail = []
     while i < len(lines):
         ln = lines[i]
         st = ln.lstrip()
+        if st.startswith("//@ expect_fail "):
+            # vacuity guard for pure-spec theorems: the named proof fn (same hypotheses, `ensures false`) must NOT verify
+            expect_fail.append(st[len("//@ expect_fail "):].strip())
+            out.append("// " + st[4:])
+            i += 1
+            continue
         if st.startswith("//@"):
             blk = []
             mirrors = {}
@@ -1448,7 +1455,7 @@ def assemble(template_path, repo, cfgset=("debug_assertions",), variant="main", 
             continue
         out.append(ln)
         i += 1
-    return "\n".join(out), {"items": items_log, "rewrites": log, "linemap": linemap, "blocks": blocks, "includes": includes}
+    return "\n".join(out), {"items": items_log, "rewrites": log, "linemap": linemap, "blocks": blocks, "includes": includes, "expect_fail": expect_fail}
 
 
 if __name__ == "__main__":
